@@ -1,0 +1,19 @@
+//go:build verif
+
+package asyncbufio
+
+import (
+	"bufio"
+	"io"
+	"time"
+)
+
+// VerifNewWriterSize is NewWriter with a bufio buffer of the given size (verification harness only:
+// lets the C07 check exercise the buffer-boundary behaviour with small buffers).
+// The buffer is replaced before anything has been sent to the writer goroutine, which touches
+// aw.writer only after a channel receive.
+func VerifNewWriterSize(w io.Writer, channelDepth int, flushInterval time.Duration, size int) *Writer {
+	aw := NewWriter(w, channelDepth, flushInterval)
+	aw.writer = bufio.NewWriterSize(w, size)
+	return aw
+}
